@@ -468,7 +468,13 @@ func CheckSpec(v *CallView, sp *Spec, rs RuleSet) []Violation {
 			add("failure-not-reported", bs, fmt.Sprintf("%s: a rule failed but the call returned nil", v.C))
 		}
 		if !anyFired && gotErr {
-			add("error-without-failure", bs, fmt.Sprintf("%s: no rule failed but the call returned %v", v.C, errStr(v.C)))
+			// "an error if and only if a rule failed" is stated for the sort model (C04); elsewhere only
+			// "a failure surfaces as an error" is (C09), so the converse is recorded under a name no property claims
+			clause := "error-without-failure"
+			if !(len(sp.Stages) == 1 && sp.Stages[0].Mode != ModeUnordered) {
+				clause = "error-without-failure-unspecified-model"
+			}
+			add(clause, bs, fmt.Sprintf("%s: no rule failed but the call returned %v", v.C, errStr(v.C)))
 		}
 	}
 	return out
